@@ -288,12 +288,12 @@ func (r *Run) setViol(clause, sig, exp, obs string) {
 		v.Foreign = true
 		v.Signature = clauseTags[clause][0] + "/" + clause + ": " + sig
 		r.foreign = append(r.foreign, v)
-		r.logf("FOREIGN %s exp=%s obs=%s", v.Signature, trunc(exp, 200), trunc(obs, 200))
+		r.logf("FOREIGN %s", v.Signature)
 		return
 	}
 	if r.viol == nil {
 		r.viol = v
-		r.logf("VIOLATION %s exp=%s obs=%s", v.Signature, trunc(exp, 300), trunc(obs, 300))
+		r.logf("VIOLATION %s", v.Signature)
 	}
 }
 
